@@ -283,6 +283,9 @@ func monC02(w *World) {
 			if s := relabelSig(qc.Signature(), w.plan.N); s != nil {
 				muts["swapped-ids"] = hotstuff.NewQuorumCert(s, qc.View(), qc.BlockHash())
 			}
+			if s := permuteSig(qc.Signature()); s != nil {
+				muts["permuted-ids"] = hotstuff.NewQuorumCert(s, qc.View(), qc.BlockHash())
+			}
 			for k := 2; k < q; k++ {
 				// fewer than a quorum of distinct signers, repeated in rotation: a b a b ..., a b c a ...
 				if r := rotateSig(qc.Signature(), k, q); r != nil {
